@@ -1,2 +1,7 @@
 import SlimModel.Basic
 import SlimModel.SlimMsg
+import SlimModel.Spec
+import SlimModel.Build
+import SlimModel.Query
+import SlimModel.Bits
+import SlimModel.Slim
